@@ -17,12 +17,12 @@ from __future__ import annotations
 
 import ast
 
-from core.guards import TRUE, atom, atoms_of, conds_formula, f_and, f_not, implies, satisfiable, to_formula
-from core.loader import AnalysisError, FuncInfo, Repo, norm, parent
+from core.guards import atom, atoms_of, conds_formula, f_not, implies, satisfiable
+from core.loader import AnalysisError, FuncInfo, Repo, norm
 from core.report import Result
 
 from .c05_shapes import LOOKUP, D, Shapes, _is_empty_literal
-from .c05_views import family, Production, all_nodes, assignments_of, dview, key_of, productions, single_value, value_cases, where_of
+from .c05_views import Production, all_nodes, dview, family, key_of, productions, single_value, value_cases, where_of
 from .common import conds, types_of, where
 from .tables import LAYER_DETECTOR, Inliner, bucket_wiring
 
@@ -123,7 +123,7 @@ def check_detector(repo: Repo, res: Result) -> None:
             for j in raw:
                 k3 += 1
                 if j.clean is False:
-                    res.add("C05.R3", key_of(repo, sh_view(sh, j, view), j.node, f" [{b.field}]"), False, f"`{norm(j.node, 70)}` judges the un-filtered 'other' dependencies: an import between two modules of the subject layer counts as access to something else", where_of(view, j.node), kind="flow")
+                    res.add("C05.R3", key_of(repo, view, j.node, f" [{b.field}]"), False, f"`{norm(j.node, 70)}` judges the un-filtered 'other' dependencies: an import between two modules of the subject layer counts as access to something else", where_of(view, j.node), kind="flow")
                 elif not sh.unknown_filters:
                     res.undecide("C05.R3", key_of(repo, view, j.node, f" [{b.field}]"), f"cannot establish that `{norm(j.node, 60)}` judges same-layer-filtered dependencies", where_of(view, j.node))
             # (ii) the decision that suppresses the report is made on filtered pairs, for the layer as a whole
@@ -157,10 +157,6 @@ def check_detector(repo: Repo, res: Result) -> None:
                     res.add("C05.R4", construct, verdict, detail, wh, kind="decision-table")
     res.floor("C05.R3", 4, k3)
     res.floor("C05.R4", 5, k4)
-
-
-def sh_view(sh: Shapes, j, default: FuncInfo) -> FuncInfo:
-    return default
 
 
 def _absent_guard(view: FuncInfo, sh: Shapes, keyp: list[Production], jmap: dict, src: str):
